@@ -66,7 +66,15 @@ def serialSendBody (d : Driver) (c : Cmd) (out : List Act) : List Step :=
   [ { act := if d = .sci then .flush else .flush1 } ] ++ serialCommand d c.frame out ++
   (if c.query then [ { act := .poll, h := out } ] else [])
 
+/-- frame lengths the HID gateways carry (`_send_raw` refuses the others first thing) -/
+def Driver.carries (d : Driver) (f : WFrame) : Bool :=
+  match d with
+  | .tridonic => f.bits == 16 || f.bits == 24
+  | .hasseb => f.bits == 16
+  | _ => true
+
 def rawSend (d : Driver) (c : Cmd) (out : List Act) : List Step :=
+  if !d.carries c.frame then [ { act := .refuse, h := out } ] else
   match d with
   | .tridonic => tridonicRaw true c.frame out
   | .hasseb => hassebRaw c.frame c.query out
